@@ -96,17 +96,32 @@ def tree_family():
     return fam
 
 
-def build_tree(spec):
+def build_tree(spec, style=None):
+    """style None: RoutingTree(chip) then children appended to .children;
+    "topdown": the child list is created first, handed to the constructor
+    while still empty and filled afterwards (the object must keep the
+    caller's list); "ctor": complete child list given to the constructor."""
     from rig.place_and_route.routing_tree import RoutingTree
     from rig.routing_table import Routes
     chip, kids = spec
-    node = RoutingTree(tuple(chip))
+    if style == "topdown":
+        lst = []
+        node = RoutingTree(tuple(chip), lst)
+        target = lst
+    elif style == "ctor":
+        target = []
+        node = None
+    else:
+        node = RoutingTree(tuple(chip))
+        target = node.children
     for route, child in kids:
         r = None if route is None else Routes(route)
         if isinstance(child, tuple):
-            node.children.append((r, build_tree(child)))
+            target.append((r, build_tree(child, style)))
         else:
-            node.children.append((r, child))
+            target.append((r, child))
+    if style == "ctor":
+        node = RoutingTree(tuple(chip), target)
     return node
 
 
@@ -145,9 +160,18 @@ def judge_trees(specs_keys, acc, case):
     acc.evaluations += 1
     routes = {}
     net_keys = {}
+    built = {}
     for i, (spec, km) in enumerate(specs_keys):
         net = "net%d" % i
-        routes[net] = build_tree(spec)
+        if case.get("share_objects"):
+            # nets with equal trees are given the very same RoutingTree
+            # object (as a router that caches trees would)
+            k_ = repr(spec)
+            if k_ not in built:
+                built[k_] = build_tree(spec, case.get("style"))
+            routes[net] = built[k_]
+        else:
+            routes[net] = build_tree(spec, case.get("style"))
         net_keys[net] = km
     want = reference_tables(specs_keys)
     try:
@@ -219,6 +243,16 @@ def part_trees(k, tier, acc):
             acc.nontrivial += 1
             judge_trees([(fam[a], A)], acc, dict(part="trees", trees=[a],
                                                  same=True))
+            # other ways of building the same tree; the same object shared
+            # by two nets with different / equal keys
+            for style in ("topdown", "ctor"):
+                judge_trees([(fam[a], A)], acc,
+                            dict(part="trees", trees=[a], same=True,
+                                 style=style))
+            for same in (False, True):
+                judge_trees([(fam[a], A), (fam[a], A if same else B)], acc,
+                            dict(part="trees", trees=[a, a], same=same,
+                                 share_objects=True))
         for b in range(len(fam)):
             i += 1
             if i % 16 != k:
